@@ -570,3 +570,84 @@ func c10RunFree(sc c10Scenario) (*c10Obs, *fakeProc, []gateVerdict) {
 	fp.kill()
 	return obs, fp, verdicts
 }
+
+// TestVerifC10CacheCheck validates the state-cache abstraction: for the scenarios small
+// enough to finish without it, the search with the cache must reach exactly the outcome
+// vectors (and verdicts) that the search without the cache reaches.
+func TestVerifC10CacheCheck(t *testing.T) {
+	r := rep.New("c10-cachecheck")
+	defer r.Write()
+	r.Rule = "for every single-sender scenario (and the two-sender scenarios without a fault) the DFS with preemption bound 1 is run twice, with and without the state cache; the sets of distinct outcome vectors must be equal; non-trivial = distinct scenario"
+	var k int64
+	deadline := rep.Deadline()
+	for _, sc := range c10Scenarios(false) {
+		total := 0
+		for _, s := range sc.Senders {
+			total += len(s)
+		}
+		if !(len(sc.Senders) == 1 && total <= 2) && !(len(sc.Senders) == 2 && total == 2 && sc.Fault == "none" && sc.StdinFault == "none") {
+			continue
+		}
+		k++
+		if !r.Mine(k) {
+			continue
+		}
+		if !deadline.IsZero() && time.Now().After(deadline) {
+			r.NotExhaustive("budget")
+			break
+		}
+		sets := [2]map[string]bool{{}, {}}
+		execs := [2]int64{}
+		for mode := 0; mode < 2; mode++ {
+			gateNoCache = mode == 1
+			ex := &gate.Explorer{Bound: 1, NShards: 1}
+			if mode == 1 {
+				ex.MaxExecs = 400000
+			}
+			ex.RunOne = func(prefix []int, expect []gate.PointRec, owned bool) *gate.Exec {
+				x, obs, _, verdicts, _ := c10RunOne(t, sc, prefix, expect)
+				o := c10Outcome(sc, obs)
+				for _, v := range verdicts {
+					o += "|VERDICT:" + v.key
+				}
+				sets[mode][o] = true
+				return x
+			}
+			ex.Explore()
+			execs[mode] = ex.Stats.Executions
+			if ex.Stats.Capped {
+				sets[mode] = nil
+			}
+		}
+		gateNoCache = false
+		r.Eval(execs[0] + execs[1])
+		r.NonTrivial("")
+		if sets[1] == nil {
+			r.Count("uncached_search_capped", 1)
+			continue
+		}
+		r.Count("scenarios_compared", 1)
+		r.Count("executions_cached", execs[0])
+		r.Count("executions_uncached", execs[1])
+		var missing, extra []string
+		for o := range sets[1] {
+			if !sets[0][o] {
+				missing = append(missing, o)
+			}
+		}
+		for o := range sets[0] {
+			if !sets[1][o] {
+				extra = append(extra, o)
+			}
+		}
+		if len(missing)+len(extra) > 0 {
+			t.Errorf("state cache changes the reachable outcomes of scenario %v: missing with cache %v, only with cache %v", sc, missing, extra)
+		}
+		if k%9 == 1 {
+			r.Sample(map[string]any{"scenario": sc, "outcomes": len(sets[0]), "executions_cached": execs[0], "executions_uncached": execs[1]})
+		}
+	}
+	if len(r.Samples) == 0 {
+		r.Sample("no scenario in this shard")
+	}
+}
